@@ -3377,7 +3377,7 @@ def c05_linalg(ns, G):
 
 
 # ---------------------------------------------------------------- C06: the in-place pulse functions, executed on a 2-point-per-axis grid
-def c06_pulse_exec(q):
+def c06_pulse_exec(q, G=2):
     """PhiManip.<q> (phi_KD_admix_..._into_d), helper _K_pop_admixture_intermediates answered by an abstract result (bracket indices concrete and
     different for every grid point, fractions and normalisation symbolic per grid point):
       * the helper receives phi, the per-population mixing fractions in population order (source k: its f_k; destination: 1 - sum of the f's; the
@@ -3385,14 +3385,13 @@ def c06_pulse_exec(q):
       * for every position of the other populations, new phi[.., j', ..] = sum_j w_j(dest grid) * P[j][j'] where row j of P holds
         frac_lower*norm at the lower bracket and frac_upper*norm at the upper bracket *of that same grid point* (trapezoid weights w);
       * phi is updated in place and returned."""
-    oid = 'C06/PhiManip.py:%s/exec' % q
+    oid = 'C06/PhiManip.py:%s/exec%s' % (q, '' if G == 2 else '.G%d' % G)
     fn = 'dadi/PhiManip.py::' + q
 
     @guarded(oid, fn)
     def go():
         m = re.match(r'phi_(\d)D_admix_.*into_(\d)$', q)
         K, dest = int(m.group(1)), int(m.group(2)) - 1
-        G = 2
         mod = ModInfo.load('dadi/PhiManip.py')
         node = mod.funcs[q]
         params = [a.arg for a in node.args.args]
@@ -3409,7 +3408,10 @@ def c06_pulse_exec(q):
         f0 = {idx: z3.Real('phi' + '_'.join(map(str, idx))) for idx in itertools.product(*[range(G)] * K)}
         phi = _nd_build(shape, lambda idx: f0[idx])
         grids = [VList(reals('%s_' % GRIDS[a], G), 'ndarray') for a in range(K)]
-        low = {idx: (idx[dest] + sum((a + 1) * idx[a] for a in range(K) if a != dest)) % G for idx in f0}
+        # bracket indices in general position: a fixed pseudo-random table (no symmetry between axes, so a transposed or stale index shows)
+        import random as _random
+        _r = _random.Random(20261004 + 97 * K + dest)
+        low = {idx: _r.randrange(G) for idx in sorted(f0)}
         up = {idx: (low[idx] + 1) % G for idx in f0}
         FL = {idx: z3.Real('fl' + '_'.join(map(str, idx))) for idx in f0}
         FU = {idx: z3.Real('fu' + '_'.join(map(str, idx))) for idx in f0}
@@ -4567,25 +4569,26 @@ def c05_admix_props(K):
     return go()
 
 
-def c06_new_pop_exec(q):
+def c06_new_pop_exec(q, G=2):
     """PhiManip constructors phi_2D_to_3D_admix / phi_3D_to_4D / phi_4D_to_5D executed on a 2-point-per-axis grid, helper answered by an abstract
     result (bracket indices concrete and different per grid point, fractions / normalisation symbolic):
       * helper gets phi, the fractions of populations 1..K-1 in population order (the last one implied), the K grids in order and the new grid;
       * new phi[i.., j] = frac_lower*norm at j = lower bracket of grid point i.., frac_upper*norm at the upper bracket, 0 elsewhere
         (every existing grid point keeps its own bracket: no index is transposed)."""
-    oid = 'C06/PhiManip.py:%s/exec' % q
+    oid = 'C06/PhiManip.py:%s/exec%s' % (q, '' if G == 2 else '.G%d' % G)
     fn = 'dadi/PhiManip.py::' + q
 
     @guarded(oid, fn)
     def go():
         K = {'phi_2D_to_3D_admix': 2, 'phi_3D_to_4D': 3, 'phi_4D_to_5D': 4}[q]
-        G = 2
         shape = (G,) * K
         f0 = {i: z3.Real('phi' + '_'.join(map(str, i))) for i in itertools.product(*[range(G)] * K)}
         phi = _nd_build(shape, lambda i: f0[i])
         fr = [z3.Real('f%d' % (k + 1)) for k in range(K - 1)]
         grids = [VList(reals('%s_' % GRIDS[a], G), 'ndarray') for a in range(K + 1)]
-        low = {i: sum((a + 1) * i[a] for a in range(K)) % G for i in f0}
+        import random as _random
+        _r = _random.Random(20261004 + 89 * K)       # bracket indices in general position (fixed pseudo-random table)
+        low = {i: _r.randrange(G) for i in sorted(f0)}
         up = {i: (low[i] + 1) % G for i in f0}
         FL = {i: z3.Real('fl' + '_'.join(map(str, i))) for i in f0}
         FU = {i: z3.Real('fu' + '_'.join(map(str, i))) for i in f0}
